@@ -463,7 +463,9 @@ def nothing_registered_before_validation(chk, rule: str) -> None:
 
     def has(n, pred) -> bool:
         return n.expr() is not None and any(isinstance(c, _ast.Call) and pred(c) for c in _ws(n.expr()))
-    enters = [n for n in cfg.nodes if has(n, lambda c: isinstance(c.func, _ast.Attribute) and c.func.attr == 'transition_to' and c.args and 'create_initial_state' in _norm(c.args[0]))]
+    from ..rules import Resolver as _Res
+    res_ = _Res(mc)     # (the initial state possibly named in a local first)
+    enters = [n for n in cfg.nodes if has(n, lambda c: isinstance(c.func, _ast.Attribute) and c.func.attr == 'transition_to' and c.args and 'create_initial_state' in res_.text(c.args[0]))]
     inits = [n for n in cfg.nodes if has(n, lambda c: (_norm(c.func).endswith('call_with_super_check') and c.args and _norm(c.args[0]).endswith('.init')) or _norm(c.func).endswith('.init'))]
     ok = bool(enters) and bool(inits) and all(cfg.must_pass(cfg.entry, [i], lambda m: m in enters, edge_ok=no_exc) for i in inits)
     chk.ob(rule, mc, ok, 'a new state machine enters its initial state (where a process validates its inputs) BEFORE init() runs (where it subscribes to the communicator): a rejected '
